@@ -109,8 +109,25 @@ func c14MkFile(src string) string {
 var c14DocFile = sync.OnceValue(func() string { return c14MkFile(c14Doc) })
 var c14DocFileG = sync.OnceValue(func() string { return c14MkFile(c14DocG) })
 
-// classes g_* are requests against the second document
+// classes g_* are requests against the second document, classes s_* against the third
 func c14IsG(class string) bool { return strings.HasPrefix(class, "g_") }
+func c14IsS(class string) bool { return strings.HasPrefix(class, "s_") }
+
+// the third document: its server carries scheme, host and base path, all of which the routers match
+const c14DocS = `{
+ "openapi": "3.0.3",
+ "info": {"title": "s", "version": "1"},
+ "servers": [{"url": "http://api.example.com:8080/v1"}],
+ "paths": {
+  "/s": {"get": {"responses": {
+      "200": {"description": "ok", "content": {"application/json": {"schema":
+        {"type": "object", "required": ["id"], "properties": {"id": {"type": "integer"}}}}}},
+      "201": {"description": "created"}}}}
+ }
+}`
+
+var c14RouterS = sync.OnceValue(func() routers.Router { return c14MkRouter(c14DocS) })
+var c14DocFileS = sync.OnceValue(func() string { return c14MkFile(c14DocS) })
 
 // the handler currently registered behind http.DefaultServeMux (gate "vhandler_def": ValidationHandler.Load's default Handler)
 var c14MuxHandler http.Handler
@@ -137,6 +154,7 @@ type c14Case struct {
 		Opt      string `json:"opt"`
 		Primer   string `json:"primer"`
 		Auth     string `json:"auth"`
+		Prior    string `json:"prior"`
 	} `json:"cfg"`
 	Script []c14Call `json:"script"`
 }
@@ -287,6 +305,16 @@ func c14RequestOf(class string, mk func(method, url, body string) *http.Request)
 		return r
 	case "g_open":
 		return mk("GET", "/gopen", "")
+	case "s_ok":
+		return mk("GET", "http://api.example.com:8080/v1/s", "")
+	case "s_host":
+		return mk("GET", "http://other.example.com:8080/v1/s", "")
+	case "s_scheme":
+		return mk("GET", "https://api.example.com:8080/v1/s", "")
+	case "s_port":
+		return mk("GET", "http://api.example.com:9090/v1/s", "")
+	case "s_base":
+		return mk("GET", "http://api.example.com:8080/s", "")
 	}
 	panic("harness: unknown request class " + class)
 }
@@ -344,6 +372,9 @@ func c14Run(c *Case) []any {
 	}
 	if tc.Cfg.Primer == "" {
 		tc.Cfg.Primer = "none"
+	}
+	if tc.Cfg.Prior == "" {
+		tc.Cfg.Prior = "none"
 	}
 	var log []any
 	log = append(log, map[string]any{"ev": "cfg", "case": c.Idx, "cfg": tc.Cfg, "script": c14Script(tc.Script)})
@@ -414,6 +445,10 @@ func c14Run(c *Case) []any {
 				w.Header().Set("Content-Type", "application/json")
 				w.Write([]byte("oops"))
 			}
+			if tc.Cfg.Prior != "none" {
+				w.Header().Set("Content-Type", "application/json")
+				w.Write([]byte(`{"id":1}`))
+			}
 			return
 		}
 		put(map[string]any{"ev": "Enter"})
@@ -469,6 +504,8 @@ func c14Run(c *Case) []any {
 		file := c14DocFile()
 		if c14IsG(tc.Cfg.ReqClass) {
 			file = c14DocFileG()
+		} else if c14IsS(tc.Cfg.ReqClass) {
+			file = c14DocFileS()
 		}
 		vh := &openapi3filter.ValidationHandler{
 			Handler:            base,
@@ -477,8 +514,10 @@ func c14Run(c *Case) []any {
 			ErrorEncoder:       (&openapi3filter.ValidationErrorEncoder{Encoder: openapi3filter.DefaultErrorEncoder}).Encode,
 		}
 		if tc.Cfg.ErrMode == "custom" {
-			vh.ErrorEncoder = func(_ context.Context, _ error, w http.ResponseWriter) {
-				put(map[string]any{"ev": "Err", "status": 499, "code": 0})
+			vh.ErrorEncoder = func(ctx context.Context, _ error, w http.ResponseWriter) {
+				if !primer(ctx) {
+					put(map[string]any{"ev": "Err", "status": 499, "code": 0})
+				}
 				w.WriteHeader(499)
 				w.Write([]byte("X"))
 			}
@@ -504,6 +543,8 @@ func c14Run(c *Case) []any {
 		router := c14Router()
 		if c14IsG(tc.Cfg.ReqClass) {
 			router = c14RouterG()
+		} else if c14IsS(tc.Cfg.ReqClass) {
+			router = c14RouterS()
 		}
 		v := openapi3filter.NewValidator(router, opts...)
 		gate = v.Middleware(handler)
@@ -520,6 +561,13 @@ func c14Run(c *Case) []any {
 		}
 		r := c14Request(class)
 		return r.WithContext(context.WithValue(r.Context(), c14PrimerKey{}, true))
+	}
+	if tc.Cfg.Prior != "none" {
+		// another request served by the same gate instance just before; what it did is not part of this run's trace
+		pr := c14Request(tc.Cfg.Prior)
+		pr = pr.WithContext(context.WithValue(pr.Context(), c14PrimerKey{}, true))
+		guard(func() { gate.ServeHTTP(httptest.NewRecorder(), pr) })
+		log = log[:1]
 	}
 	stop := make(chan struct{})
 	var wg sync.WaitGroup
@@ -571,7 +619,8 @@ func c14Run(c *Case) []any {
 	// Second pass: the same gate and handler behind a real net/http server, asked by a real client.  What that client
 	// receives is logged next to the raw calls of the first pass, so that the specification's ClientModel (its reading of
 	// raw ResponseWriter calls) is itself judged against net/http.  Short behaviours and all with an informational status.
-	realPass := tc.Cfg.Primer == "none" && tc.Cfg.ReqClass != "valid_upgrade" && tc.Cfg.ReqClass != "nf_head" && !panicked
+	// (not for the classes that are about the server part of the URL: the real server has its own address)
+	realPass := tc.Cfg.Primer == "none" && tc.Cfg.ReqClass != "valid_upgrade" && tc.Cfg.ReqClass != "nf_head" && !panicked && !c14IsS(tc.Cfg.ReqClass)
 	if realPass && len(tc.Script) > 2 {
 		realPass = false
 		for _, call := range tc.Script {
@@ -625,6 +674,9 @@ func init() {
 			}
 			if tc.Cfg.Primer == "" {
 				tc.Cfg.Primer = "none"
+			}
+			if tc.Cfg.Prior == "" {
+				tc.Cfg.Prior = "none"
 			}
 			return []any{
 				map[string]any{"ev": "cfg", "case": c.Idx, "cfg": tc.Cfg, "script": c14Script(tc.Script)},
